@@ -1,7 +1,3 @@
-(* C11: matrix / Euler conversions (pypose/lietensor/convert.py, LieTensor.euler) over R:
-   mat2SO3 returns +-q for every unit quaternion (selected radicand >= 1 - |atol| in each of the four
-   regions), mat2SE3 / mat2Sim3 / mat2RxSO3 round trips in the layouts 3x3 / 3x4 / 4x4, the check=True
-   predicates, the batch-shape defect of the rank test, euler2SO3 = Rz Ry Rx, euler round trip. *)
 From Coq Require Import Reals Lra Psatz List Nsatz.
 Import ListNotations.
 From PV Require Import Base.Num Base.RTac Model.LieGroup Model.Convert Proofs.LieGroup.
@@ -803,3 +799,235 @@ Proof.
   intros [= Hx _ _ _]. unfold qsc. lie_unfold. destruct Hs as [-> | ->]; [split_pairs; ring|].
   exfalso. revert Hx. replace 4 with ((2 * 1) * (2 * 1)) by ring. rewrite sqrt_sq2, Rabs_R1. lra.
 Qed.
+
+(* ================= evaluation lemmas used by the enclosure route of the tie =================
+   They reduce one call on a one-item batch to (i) the facts the code tests (tolerances, masks,
+   sign of the radicand) and (ii) the closed form of the selected branch, so that the case files
+   only have to establish small numeric facts with [interval]. *)
+Definition disc_k (k : nat) (T : @mat3 R) : R :=
+  match k with 0%nat => disc0 T | 1%nat => disc1 T | 2%nat => disc2 T | _ => disc3 T end.
+Definition core_value (k : nat) (T : @mat3 R) : quatR :=
+  let d := 2 * sqrt (disc_k k T) in
+  match k with
+  | 0%nat => (((disc0 T) / d, (e3 T 0 1 + e3 T 1 0) / d, (e3 T 2 0 + e3 T 0 2) / d), (e3 T 1 2 - e3 T 2 1) / d)
+  | 1%nat => (((e3 T 0 1 + e3 T 1 0) / d, (disc1 T) / d, (e3 T 1 2 + e3 T 2 1) / d), (e3 T 2 0 - e3 T 0 2) / d)
+  | 2%nat => (((e3 T 2 0 + e3 T 0 2) / d, (e3 T 1 2 + e3 T 2 1) / d, (disc2 T) / d), (e3 T 0 1 - e3 T 1 0) / d)
+  | _ => (((e3 T 1 2 - e3 T 2 1) / d, (e3 T 2 0 - e3 T 0 2) / d, (e3 T 0 1 - e3 T 1 0) / d), (disc3 T) / d)
+  end.
+Definition core_branch (atol : R) (k : nat) (T : @mat3 R) : Prop :=
+  match k with
+  | 0%nat => e3 T 2 2 < atol /\ e3 T 1 1 < e3 T 0 0 /\ 0 < disc0 T
+  | 1%nat => e3 T 2 2 < atol /\ e3 T 0 0 <= e3 T 1 1 /\ 0 < disc1 T
+  | 2%nat => atol <= e3 T 2 2 /\ e3 T 0 0 < - e3 T 1 1 /\ 0 < disc2 T
+  | _ => atol <= e3 T 2 2 /\ - e3 T 1 1 <= e3 T 0 0 /\ 0 < disc3 T
+  end.
+Ltac norm01 := rewrite ?Rmult_1_r, ?Rmult_0_r, ?Rplus_0_r, ?Rplus_0_l.
+Lemma core_eval atol k (M : @mat3 R) :
+  core_branch atol k (mtrans M) -> mat2SO3_core atol M = Some (core_value k (mtrans M)).
+Proof.
+  unfold mat2SO3_core, masks, comb. cbn [sel_c0 sel_c1 sel_c2 sel_c3]. generalize (mtrans M). intros T.
+  cbv [ltb leb NumR]. num_unfold. cbv [tsqrt TransR].
+  destruct k as [|[|[|k]]]; cbn [core_branch core_value disc_k]; intros [H1 [H2 H3]].
+  - apply Rltb_true in H1, H2. rewrite H1, H2. cbn [andb negb b2f]. num_unfold. norm01.
+    destruct (Rleb (disc0 T) 0) eqn:E; [apply Rleb_true in E; lra | reflexivity].
+  - apply Rltb_true in H1. apply Rltb_false in H2. rewrite H1, H2. cbn [andb negb b2f]. num_unfold. norm01.
+    destruct (Rleb (disc1 T) 0) eqn:E; [apply Rleb_true in E; lra | reflexivity].
+  - apply Rltb_false in H1. apply Rltb_true in H2. rewrite H1, H2. cbn [andb negb b2f]. num_unfold. norm01.
+    destruct (Rleb (disc2 T) 0) eqn:E; [apply Rleb_true in E; lra | reflexivity].
+  - apply Rltb_false in H1. apply Rltb_false in H2. rewrite H1, H2. cbn [andb negb b2f]. num_unfold. norm01.
+    destruct (Rleb (disc3 T) 0) eqn:E; [apply Rleb_true in E; lra | reflexivity].
+Qed.
+
+(* the ten tests of check=True, spelled out *)
+Definition within10 (rtol atol : R) (M : @mat3 R) : Prop :=
+  let E := mmul3 M (mtrans M) in
+  closeP rtol atol (e3 E 0 0) 1 /\ closeP rtol atol (e3 E 0 1) 0 /\ closeP rtol atol (e3 E 0 2) 0 /\
+  closeP rtol atol (e3 E 1 0) 0 /\ closeP rtol atol (e3 E 1 1) 1 /\ closeP rtol atol (e3 E 1 2) 0 /\
+  closeP rtol atol (e3 E 2 0) 0 /\ closeP rtol atol (e3 E 2 1) 0 /\ closeP rtol atol (e3 E 2 2) 1 /\
+  closeP rtol atol (mdet3 M) 1.
+Lemma within10_ok rtol atol M : within10 rtol atol M -> orth_ok rtol atol M = true /\ det_ok rtol atol M = true.
+Proof.
+  unfold within10. intros [H00 [H01 [H02 [H10 [H11 [H12 [H20 [H21 [H22 Hd]]]]]]]]]. split.
+  - apply orth_ok_true. intros i j Hi Hj.
+    destruct i as [|[|[|i]]]; try lia; destruct j as [|[|[|j]]]; try lia; cbn [delta Nat.eqb]; assumption.
+  - apply det_ok_true. exact Hd.
+Qed.
+
+Lemma mat2SO3_single rtol atol check (M : @mat3 R) q :
+  (check = true -> within10 rtol atol M) -> mat2SO3_core atol M = Some q ->
+  mat2SO3 rtol atol check [Some M] = Value [Some q].
+Proof.
+  intros Hc Hq. destruct check.
+  - rewrite mat2SO3_pass.
+    + cbn [map so3_item obindo]. now rewrite Hq.
+    + intros M' [<-|[]]. cbn [lift]. apply within10_ok. now apply Hc.
+  - rewrite mat2SO3_nocheck. cbn [map so3_item obindo]. now rewrite Hq.
+Qed.
+
+Lemma from_matrix_is_mat2X rtol atol ltype check B rows cols (data : list (list R)) :
+  (ltype <= 3)%nat -> from_matrix_l rtol atol ltype check B rows cols data = mat2X_l rtol atol ltype check B rows cols data.
+Proof.
+  intros Hl. unfold from_matrix_l, mat2X_l. destruct (accepted rows cols); cbn [negb]; [|reflexivity].
+  assert (E : Nat.ltb 3 ltype = false) by (apply Nat.ltb_ge; exact Hl). now rewrite E.
+Qed.
+
+Section EvalItem.
+Variables (rtol atol : R) (check : bool) (B : list nat) (rows cols : nat) (data : list R) (k : nat).
+Hypothesis Hacc : accepted rows cols = true.
+Let m := parse_in rows cols data.
+Let M := in_rot m.
+
+Lemma eval_item_SO3 :
+  (check = true -> within10 rtol atol M) -> core_branch atol k (mtrans M) ->
+  outcome_item (mat2X_l rtol atol 0 check B rows cols [data]) 0 = q_l (core_value k (mtrans M)).
+Proof.
+  intros Hc Hb. unfold mat2X_l. rewrite Hacc. cbn [negb map].
+  fold m. fold M. rewrite (mat2SO3_single _ _ _ _ _ Hc (core_eval _ _ _ Hb)). reflexivity.
+Qed.
+Lemma eval_item_SE3 :
+  (check = true -> within10 rtol atol M) -> core_branch atol k (mtrans M) ->
+  outcome_item (mat2X_l rtol atol 1 check B rows cols [data]) 0 = SE3_l (in_trans m, core_value k (mtrans M)).
+Proof.
+  intros Hc Hb. unfold mat2X_l. rewrite Hacc. cbn [negb map]. unfold mat2SE3. cbn [map].
+  fold m. fold M. rewrite (mat2SO3_single _ _ _ _ _ Hc (core_eval _ _ _ Hb)). reflexivity.
+Qed.
+
+(* scaled groups: s is the cube root of the determinant, N = M / s *)
+Variable s : R.
+Hypothesis Hdet : 0 < mdet3 M.
+Hypothesis Hs : s = exp (ln (mdet3 M) / 3).
+Hypothesis HB : broadcastable (B ++ [1%nat]) B = true.
+Hypothesis Hrank : atol + rtol * Rabs 0 < Rabs (s - 0).
+Let N := mmap3 (fun e => e / s) M.
+
+Lemma sc_item_pos : sc_item m = Some s.
+Proof.
+  unfold sc_item, cbrt. change (in_rot m) with M. cbv [ltb zero NumR].
+  destruct (Rltb 0 (mdet3 M)) eqn:E.
+  2:{ apply Rltb_false in E. exfalso. apply (Rlt_irrefl 0). eapply Rlt_le_trans; [exact Hdet | exact E]. }
+  cbv [texp tln div ofZ TransR NumR]. now rewrite Hs.
+Qed.
+Lemma s_nonzero : s <> 0.
+Proof. rewrite Hs. pose proof (exp_pos (ln (mdet3 M) / 3)). lra. Qed.
+Lemma div_item_pos : div_item m = Some N.
+Proof.
+  unfold div_item. rewrite sc_item_pos. unfold mdiv3. cbv [eqb zero NumR].
+  destruct (Reqb s 0) eqn:E; [apply Reqb_true in E; now apply s_nonzero in E | reflexivity].
+Qed.
+Lemma scale_stage_single : scale_stage rtol atol B [m] = Value [Some s].
+Proof.
+  rewrite scale_stage_pass; [cbn [map]; now rewrite sc_item_pos | exact HB |].
+  exists m. split; [now left|]. rewrite sc_item_pos. unfold rank_small, lift. apply close_false. unfold closeP. lra.
+Qed.
+Lemma eval_item_RxSO3 :
+  (check = true -> within10 rtol atol N) -> core_branch atol k (mtrans N) ->
+  outcome_item (mat2X_l rtol atol 2 check B rows cols [data]) 0 = RxSO3_l (core_value k (mtrans N), s).
+Proof.
+  intros Hc Hb. unfold mat2X_l. rewrite Hacc. cbn [negb map]. fold m. unfold mat2RxSO3.
+  rewrite scale_stage_single. cbn [obind combine map fst snd]. fold M.
+  change (mdiv3 M (Some s)) with (mdiv3 (in_rot m) (Some s)).
+  pose proof div_item_pos as D. unfold div_item in D. rewrite sc_item_pos in D. rewrite D.
+  rewrite (mat2SO3_single _ _ _ _ _ Hc (core_eval _ _ _ Hb)). reflexivity.
+Qed.
+Lemma eval_item_Sim3 :
+  (check = true -> within10 rtol atol N) -> core_branch atol k (mtrans N) ->
+  outcome_item (mat2X_l rtol atol 3 check B rows cols [data]) 0 = Sim3_l (in_trans m, (core_value k (mtrans N), s)).
+Proof.
+  intros Hc Hb. unfold mat2X_l. rewrite Hacc. cbn [negb map]. fold m. unfold mat2Sim3.
+  rewrite scale_stage_single. cbn [obind combine map fst snd]. fold M.
+  change (mdiv3 M (Some s)) with (mdiv3 (in_rot m) (Some s)).
+  pose proof div_item_pos as D. unfold div_item in D. rewrite sc_item_pos in D. rewrite D.
+  rewrite (mat2SO3_single _ _ _ _ _ Hc (core_eval _ _ _ Hb)). reflexivity.
+Qed.
+End EvalItem.
+
+(* raise codes that depend on the shapes only *)
+Lemma code_shape_Sim3 rtol atol check B rows cols (data : list (list R)) :
+  accepted rows cols = true -> broadcastable (B ++ [1%nat]) B = false ->
+  outcome_code (mat2X_l rtol atol 3 check B rows cols data) = 100%nat /\
+  outcome_code (mat2X_l rtol atol 2 check B rows cols data) = 100%nat.
+Proof.
+  intros Ha Hb. unfold mat2X_l. rewrite Ha. cbn [negb]. rewrite mat2Sim3_shape, mat2RxSO3_shape by assumption.
+  split; reflexivity.
+Qed.
+(* with check=True the scaled variants raise exactly like mat2SO3 on the blocks divided by the scale *)
+Lemma mat2Sim3_check_raises rtol atol B Ms ss :
+  scale_stage rtol atol B Ms = Value ss ->
+  ((exists e, mat2Sim3 rtol atol true B Ms = Raises e) <->
+   exists M, In M (map (fun ms => mdiv3 (in_rot (fst ms)) (snd ms)) (combine Ms ss)) /\ ~ item_within rtol atol M).
+Proof.
+  intros Hs. unfold mat2Sim3. rewrite Hs. cbn [obind]. rewrite <- mat2SO3_check_raises.
+  destruct (mat2SO3 rtol atol true _) as [qs|e]; cbn [omap]; split; intros [e' He]; try discriminate; eauto.
+Qed.
+
+(* raise codes of the scaled variants on a one-item batch (rank test, negative determinant, check) *)
+Section EvalCode.
+Variables (rtol atol : R) (check : bool) (B : list nat) (rows cols : nat) (data : list R) (g : nat).
+Hypothesis Hacc : accepted rows cols = true.
+Hypothesis HB : broadcastable (B ++ [1%nat]) B = true.
+Hypothesis Hg : g = 2%nat \/ g = 3%nat.
+Let m := parse_in rows cols data.
+Let M := in_rot m.
+
+Lemma code_of_stage e :
+  scale_stage rtol atol B [m] = Raises e -> outcome_code (mat2X_l rtol atol g check B rows cols [data]) = outcome_code (@Raises unit e).
+Proof.
+  intros Hs. unfold mat2X_l. rewrite Hacc. cbn [negb map]. fold m.
+  destruct Hg as [-> | ->]; [unfold mat2RxSO3 | unfold mat2Sim3]; rewrite Hs; reflexivity.
+Qed.
+(* all scales within the tolerance of zero: "Rotation matrix not full rank" *)
+Lemma code_rank_small s : 0 < mdet3 M -> s = exp (ln (mdet3 M) / 3) -> Rabs (s - 0) <= atol + rtol * Rabs 0 ->
+  outcome_code (mat2X_l rtol atol g check B rows cols [data]) = 4%nat.
+Proof.
+  intros Hd Hs Hc. rewrite (code_of_stage (ValueError E_rank)); [reflexivity|].
+  apply scale_stage_allsmall; [exact HB|]. intros m' [<-|[]].
+  unfold m. rewrite (sc_item_pos rows cols data s Hd Hs). unfold rank_small, lift. apply close_true. exact Hc.
+Qed.
+Lemma code_rank_singular : mdet3 M = 0 -> 0 <= atol ->
+  outcome_code (mat2X_l rtol atol g check B rows cols [data]) = 4%nat.
+Proof.
+  intros Hd Ha. rewrite (code_of_stage (ValueError E_rank)); [reflexivity|].
+  apply scale_stage_allsmall; [exact HB|]. intros m' [<-|[]].
+  unfold sc_item, cbrt. change (in_rot m) with M. rewrite Hd. cbv [ltb zero NumR].
+  destruct (Rltb 0 0) eqn:E; [apply Rltb_true in E; lra|]. unfold rank_small, lift.
+  apply close_true. unfold closeP. replace (0 - 0) with 0 by ring. rewrite Rabs_R0. lra.
+Qed.
+(* negative determinant: the scale is NaN; check=True raises the orthogonality error, check=False returns *)
+Lemma sc_item_neg : mdet3 M < 0 -> sc_item m = None.
+Proof.
+  intros Hd. unfold sc_item, cbrt. change (in_rot m) with M. cbv [ltb zero NumR].
+  destruct (Rltb 0 (mdet3 M)) eqn:E; [apply Rltb_true in E; exfalso; exact (Rlt_asym _ _ E Hd)|].
+  destruct (Rltb (mdet3 M) 0) eqn:E2; [reflexivity | apply Rltb_false in E2; exfalso; exact (Rlt_not_le _ _ Hd E2)].
+Qed.
+Lemma code_negdet : mdet3 M < 0 ->
+  outcome_code (mat2X_l rtol atol g check B rows cols [data]) = if check then 2%nat else 0%nat.
+Proof.
+  intros Hd. pose proof (sc_item_neg Hd) as Hn.
+  assert (Hst : scale_stage rtol atol B [m] = Value [None]).
+  { rewrite scale_stage_pass; [cbn [map]; now rewrite Hn | exact HB |].
+    exists m. split; [now left | rewrite Hn; reflexivity]. }
+  unfold mat2X_l. rewrite Hacc. cbn [negb map]. fold m.
+  destruct Hg as [-> | ->]; [unfold mat2RxSO3 | unfold mat2Sim3]; rewrite Hst; cbn [obind combine map fst snd mdiv3];
+    destruct check; reflexivity.
+Qed.
+(* a positive scale and an entry of (M/s)(M/s)^T beyond the tolerance: check=True raises the
+   orthogonality error *)
+Lemma code_not_orth s i j : 0 < mdet3 M -> s = exp (ln (mdet3 M) / 3) -> atol + rtol * Rabs 0 < Rabs (s - 0) ->
+  check = true -> (i < 3)%nat -> (j < 3)%nat ->
+  let N := mmap3 (fun e => e / s) M in
+  atol + rtol * Rabs (delta i j) < Rabs (e3 (mmul3 N (mtrans N)) i j - delta i j) ->
+  outcome_code (mat2X_l rtol atol g check B rows cols [data]) = 2%nat.
+Proof.
+  intros Hd Hs Hr Hc Hi Hj N Hbad.
+  pose proof (scale_stage_single rtol atol B rows cols data s Hd Hs HB Hr) as Hst.
+  pose proof (div_item_pos rows cols data s Hd Hs) as D. unfold div_item in D.
+  rewrite (sc_item_pos rows cols data s Hd Hs) in D.
+  assert (Ho : orth_ok rtol atol N = false).
+  { destruct (orth_ok rtol atol N) eqn:E; [|reflexivity]. apply orth_ok_true in E.
+    specialize (E i j Hi Hj). unfold closeP in E. lra. }
+  unfold N, M, m in Ho.
+  unfold mat2X_l. rewrite Hacc. cbn [negb map]. subst check.
+  destruct Hg as [-> | ->]; [unfold mat2RxSO3 | unfold mat2Sim3]; rewrite Hst; cbn [obind combine map fst snd];
+    rewrite D; unfold mat2SO3; cbn [andb forallb lift]; rewrite Ho; reflexivity.
+Qed.
+End EvalCode.
